@@ -213,7 +213,16 @@ func splitArraySort(s Sort) (Sort, Sort) {
 	panic("bad array sort: " + str)
 }
 
+// constArrayHook lets the registry substitute a declared constant when the
+// element is not a value literal (cvc5 rejects such constant arrays).
+var constArrayHook func(so Sort, v Term) (Term, bool)
+
 func ConstArray(so Sort, v Term) Term {
+	if constArrayHook != nil {
+		if t, ok := constArrayHook(so, v); ok {
+			return t
+		}
+	}
 	return Term{"((as const " + string(so) + ") " + v.S + ")", so}
 }
 
@@ -326,6 +335,15 @@ func NewSortReg() *SortReg {
 		"(declare-fun unbox_Str (Int) Str)",
 	)
 	r.tagTypes = append(r.tagTypes, nil) // tag 0 = nil interface
+	constArrayHook = func(so Sort, v Term) (Term, bool) {
+		if !strings.Contains(v.S, "str_empty") && !strings.Contains(v.S, "float_zero") && !strings.Contains(v.S, "zarr_") {
+			return Term{}, false
+		}
+		// element zero is not a value literal: an (unconstrained) declared array stands in
+		name := "zarr_" + mangle(string(so))
+		r.declareOnce(name, fmt.Sprintf("(declare-const %s %s)", name, so))
+		return Term{name, so}, true
+	}
 	return r
 }
 
@@ -483,7 +501,7 @@ func (r *SortReg) ZeroOfSort(so Sort) Term {
 	case SStr:
 		return Term{"str_empty", SStr}
 	case SIface:
-		return Term{"iface_nil", SIface}
+		return Term{"(mk_iface 0 0)", SIface}
 	case "Float":
 		return Term{"float_zero", "Float"}
 	}
